@@ -374,7 +374,7 @@ func (eval RingPackingEvaluator) repack(cts map[int]*Ciphertext, naive bool) (ct
 
 		for j := 0; j < t; j++ {
 
-			if ctsLargeN[j] != nil || ctsLargeN[j+1] != nil {
+			if ctsLargeN[j] != nil || ctsLargeN[j+t] != nil {
 
 				ctN := NewCiphertext(eval.Parameters[logNMax-i], 1, level)
 
